@@ -294,21 +294,9 @@ fn case_from_json(v: &serde_json::Value) -> Case {
     Case { pairs, kinds, with_entry: v["with_entry"].as_bool().unwrap_or(false), validate }
 }
 
-pub fn replay(sut: &dyn Sut, path: &str) -> ! {
-    let v = read_json(path);
-    let c = case_from_json(&v);
-    let mut st = Stats::new();
-    match judge(sut, &c, &mut st) {
-        Ok(()) => {
-            println!("replay {path}: property holds on this input");
-            std::process::exit(0)
-        }
-        Err(m) => {
-            println!("VIOLATION property=C11 replay={path}");
-            println!("{m}");
-            std::process::exit(1)
-        }
-    }
+pub fn eval_replay(sut: &dyn Sut, v: &serde_json::Value) -> Result<(), String> {
+    let c = case_from_json(v);
+    judge(sut, &c, &mut Stats::new())
 }
 
 pub fn run(sut: &dyn Sut, tier: Tier) -> ! {
@@ -320,6 +308,7 @@ pub fn run(sut: &dyn Sut, tier: Tier) -> ! {
         "on Ok the output is read with syn (layout entries, bind entries, struct fields, set index, pipeline layout order)".into(),
     ];
     run.exhaustive = true;
+    run.canaries(&mut |v| eval_replay(sut, v));
     let mut stats = Stats::new();
     let max_len = tier.pick(3, 4);
     // enumerated part
